@@ -119,6 +119,8 @@ Conf(S, s, it, P, path) ==
                        ELSE LET inner == Parse(it.kids[1].str) IN IF IsErr(inner) THEN Bad(path, "cbor-inner-malformed") ELSE Conf(S, s.a, inner, P, Append(path, "inner"))
     [] s.k = "tables" -> IF it.mt # 5 \/ ~(P = "ledger" \/ (~it.indef /\ ShortestHead(it))) THEN Bad(path, "table-head")
                          ELSE IF Len(it.kids) \div 2 < s.c THEN Bad(path, "table-min")
+                         \* (a key written twice makes the map invalid CBOR for every reader, whatever the profile)
+                         ELSE IF \E x, y \in 1..(Len(it.kids) \div 2) : x < y /\ it.kids[2*x-1].str = it.kids[2*y-1].str THEN Bad(path, "table-dup-key")
                          ELSE IF P # "ledger" /\ \E j \in 1..((Len(it.kids) \div 2) - 1) :
                                    ~(Len(it.kids[2*j-1].str) < Len(it.kids[2*j+1].str) \/ (Len(it.kids[2*j-1].str) = Len(it.kids[2*j+1].str) /\ StrLt(it.kids[2*j-1].str, it.kids[2*j+1].str)))
                               THEN Bad(path, "table-keys-not-canonical")
